@@ -5,6 +5,7 @@ import (
 	"crypto/ed25519"
 	"encoding/json"
 	"fmt"
+	sxg "github.com/WICG/webpackage/go/signedexchange"
 	"io"
 	"math/rand"
 	"net/http"
@@ -38,10 +39,11 @@ func (g *gate) Write(p []byte) (int, error) {
 }
 
 type pser struct {
-	name  string
-	gated bool
-	run   func(w io.Writer) []byte // gated: writes to w and returns nil; else returns the output
-	check func() bool              // has a shared input been modified ?
+	name    string
+	gated   bool
+	run     func(w io.Writer) []byte // gated: writes to w and returns nil; else returns the output
+	check   func() bool              // has a shared input been modified ?
+	seqOnly bool                     // the runner itself keeps state (alternation): repeat mode only, no goroutines
 }
 
 func runSchedule(s *pser, n int, sched []int) [][]byte {
@@ -199,6 +201,37 @@ func purityRun(args []string) error {
 			return b.Bytes()
 		}})
 	}
+	// the signed message of one exchange for one certificate, produced alternately by a fresh Signer and by a long-lived
+	// Signer that served ANOTHER certificate just before: same logical input, same bytes
+	{
+		kcA := newKeyCert("p256", nil, 0)
+		kcB := renew(kcA, 11)
+		for _, ver := range version.AllVersions {
+			sp := baseSpec(r, ver)
+			se := buildSigned(sp, kcA)
+			ex := se.e
+			cu, _ := url.Parse(sp.certURL)
+			vu, _ := url.Parse(sp.vURL)
+			long := &sxg.Signer{Date: time.Unix(sp.date, 0), Expires: time.Unix(sp.expires, 0), Certs: kcB.certs, CertUrl: cu, ValidityUrl: vu, PrivKey: kcA.key}
+			calls := 0
+			sers = append(sers, &pser{name: "DumpSignedMessage (fresh / long-lived Signer) " + string(ver), seqOnly: true, run: func(io.Writer) []byte {
+				calls++
+				var b, scratch bytes.Buffer
+				if calls%2 == 1 {
+					fresh := &sxg.Signer{Date: time.Unix(sp.date, 0), Expires: time.Unix(sp.expires, 0), Certs: kcA.certs, CertUrl: cu, ValidityUrl: vu, PrivKey: kcA.key}
+					ex.DumpSignedMessage(&b, fresh)
+					return b.Bytes()
+				}
+				long.Certs = kcB.certs
+				ex.DumpSignedMessage(&scratch, long)
+				c2 := cloneEx(ex)
+				c2.AddSignatureHeader(long) // signs (and may memoise) for certificate B
+				long.Certs = kcA.certs
+				ex.DumpSignedMessage(&b, long)
+				return b.Bytes()
+			}})
+		}
+	}
 	// Response.HeaderSha256 (what bundle signing hashes): an ordinary response, and - as an UNRELATED call that fails after
 	// partial progress - a response whose header names collide; the failing call must not disturb the next ordinary one
 	okResp := &bundle.Response{Status: 200, Header: permHeader(r, hkv), Body: []byte("x")}
@@ -298,6 +331,9 @@ func purityRun(args []string) error {
 			"calls": calls, "mutated": s.check != nil && s.check(), "sharedcap": sharedcap})
 		// (B) every exported schedule on real goroutines
 		for si, sc := range scheds {
+			if s.seqOnly {
+				break
+			}
 			if !thorough && si%3 != 0 && len(scheds) > 30 {
 				continue
 			}
